@@ -23,7 +23,8 @@ def expand(cases, run):
         c["lv"] = list(c["lv"])
         entries = ["D", "S"] if run.prop != "C06" else ["D", "S", "HF"]
         for en in entries:
-            d = dict(c, entry=en, provider="pool" if en == "D" else "cache1", recStatus=503 if c["rec"] and en == "S" else 0)
+            d = dict(c, entry=en, provider="pool" if en == "D" else "cache1", recStatus=503 if c["rec"] and en == "S" else 0,
+                     alt=(en == "D"), flipAfter=(run.prop == "C07" and en == "S"))
             if en == "HF":
                 if not c["routed"]:
                     continue
@@ -97,7 +98,7 @@ def fam(run):
         "trace_module": "DispatchTrace",
         "reg_names": ["line", "requests", "chains", "applied", "panics", "recovered", "events", "preset"],
         "eval_counter": ev_c, "nontrivial_counter": nt_c, "rule": rule,
-        "split": shards_by_group("dreq"),
+        "split": shards_by_group("dreq", lambda ev: ev.get("rep", 0) == 0),   # both requests of a case stay together
         "count_traces": lambda evs: sum(1 for e in evs if e["e"] == "dreq"),
         "assumptions": ["filters call ProcessFilter at most once; handlers, conditions and predicates are pure",
                         "payload fidelity is observed by the harness with the standard library decoders and enters the "
